@@ -17,7 +17,8 @@ use crate::formatter::sequence::*;
 use crate::formatter::trivia::*;
 
 pub(super) use self::comments::{
-    append_trailing_statement_suffix, comment_is_inline_after_anchor,
+    append_trailing_comment_suffix, append_trailing_statement_suffix,
+    comment_is_inline_after_anchor,
     extract_trailing_comment_rendered, has_inline_non_trivia_after, render_comment_with_spacing,
     render_direct_body_comment, source_order_token_is_trailing_statement_semicolon,
 };
@@ -106,8 +107,10 @@ fn render_layout_node(
             LuaSyntaxKind::ConstStat => render_local_stat(ctx, root, syntax_plan.syntax_id, plan),
             LuaSyntaxKind::AssignStat => render_assign_stat(ctx, root, syntax_plan.syntax_id, plan),
             LuaSyntaxKind::ReturnStat => render_return_stat(ctx, root, syntax_plan.syntax_id, plan),
-            LuaSyntaxKind::BreakStat => render_break_stat(root, syntax_plan.syntax_id),
-            LuaSyntaxKind::ContinueStat => render_continue_stat(root, syntax_plan.syntax_id),
+            LuaSyntaxKind::BreakStat => render_break_stat(ctx, root, syntax_plan.syntax_id, plan),
+            LuaSyntaxKind::ContinueStat => {
+                render_continue_stat(ctx, root, syntax_plan.syntax_id, plan)
+            }
             LuaSyntaxKind::WhileStat => render_while_stat(ctx, root, syntax_plan, plan),
             LuaSyntaxKind::ForStat => render_for_stat(ctx, root, syntax_plan, plan),
             LuaSyntaxKind::ForRangeStat => render_for_range_stat(ctx, root, syntax_plan, plan),
@@ -120,7 +123,7 @@ fn render_layout_node(
                 render_call_expr_stat(ctx, root, syntax_plan.syntax_id, plan)
             }
             LuaSyntaxKind::EmptyStat => render_empty_stat(root, syntax_plan.syntax_id),
-            _ => render_unmigrated_syntax_leaf(root, syntax_plan.syntax_id),
+            _ => render_unmigrated_syntax_leaf(ctx, root, syntax_plan.syntax_id, plan),
         },
     }
 }
@@ -143,12 +146,24 @@ fn render_format_disabled_layout_node(
     Some(vec![ir::source_node_trimmed(syntax)])
 }
 
-fn render_unmigrated_syntax_leaf(root: &LuaSyntaxNode, syntax_id: LuaSyntaxId) -> Vec<DocIR> {
+fn render_unmigrated_syntax_leaf(
+    ctx: &FormatContext,
+    root: &LuaSyntaxNode,
+    syntax_id: LuaSyntaxId,
+    plan: &FormatPlan,
+) -> Vec<DocIR> {
     let Some(node) = find_node_by_id(root, syntax_id) else {
         return Vec::new();
     };
 
-    vec![ir::source_node_trimmed(node)]
+    // The statement is printed from its source text (`goto l`, `::l::`, ...); a comment behind it
+    // on the same line is a sibling and is skipped by the block, so it has to be attached here.
+    let has_own_comment = node.children().any(|child| LuaComment::cast(child).is_some());
+    let mut docs = vec![ir::source_node_trimmed(node.clone())];
+    if !has_own_comment {
+        append_trailing_comment_suffix(ctx, plan, &mut docs, &node);
+    }
+    docs
 }
 
 fn block_plan_from_parent_plan(
